@@ -336,6 +336,11 @@ func (i *IRCServer) ExpireSessions() []*robust.Message {
 	i.ConfigMu.RLock()
 	defer i.ConfigMu.RUnlock()
 	timeout := time.Duration(i.Config.SessionExpiration)
+	if timeout == 0 {
+		// The config does not set SessionExpiration at all. Use the default
+		// (like the compaction does), do not expire every session at once.
+		timeout = time.Duration(config.DefaultConfig.SessionExpiration)
+	}
 
 	i.sessionsMu.RLock()
 	defer i.sessionsMu.RUnlock()
